@@ -73,28 +73,27 @@ RoundHalfEven(a, D) ==
   IN  IF 2 * r < D THEN f ELSE IF 2 * r > D THEN f + 1 ELSE IF f % 2 = 0 THEN f ELSE f + 1
 Wrap(D, p) == [k \in I3 |-> p[k] - D * RoundHalfEven(p[k], D)]
 
+(* squared lengths are computed once per translate (TLC would redo them in every filter) *)
+MinTable(G, V, tolG, D) ==
+  LET F == Materialize([v \in V |-> QForm(G, v)])
+      L == MinOf({F[v] : v \in V})
+  IN  [len |-> L, vecs |-> {v \in V : F[v] = L}, tol |-> {v \in V : Within(L, F[v], tolG, D)}]
+
 Gred(e) == MatMul(Transpose(e.U), MatMul(e.G, e.U))
 (* reduced coordinates of the input, wrapped *)
 PRed(e) == Wrap(e.D, MatVec(UniInv(e.U), e.x))
 MachineOut(e) ==
-  LET g == Gred(e)
-      cand == WindowImages(e.D, PRed(e))
-      L == MinLen(g, cand)
-  IN  {MatVec(e.U, v) : v \in {v \in cand : Within(L, QForm(g, v), MinDiag(e.G), e.D)}}
+  LET t == MinTable(Gred(e), WindowImages(e.D, PRed(e)), MinDiag(e.G), e.D)
+  IN  {MatVec(e.U, v) : v \in t.tol}
 
 Init == ev \in Cases /\ pc = "scan" /\ snd = [len |-> 0, vecs |-> {}, tol |-> {}] /\ win = {}
 
 Scan ==
   /\ pc = "scan"
-  /\ LET B == IF ev.kind = "model" THEN <<2, 2, 2>> ELSE ev.B
-         V == Images(ev.D, ev.x, B)
-         L == MinLen(ev.G, V)
-     IN  snd' = [len |-> L, vecs |-> {v \in V : QForm(ev.G, v) = L},
-                 tol |-> {v \in V : Within(L, QForm(ev.G, v), MinDiag(ev.G), ev.D)}]
+  /\ snd' = MinTable(ev.G, Images(ev.D, ev.x, IF ev.kind = "model" THEN <<2, 2, 2>> ELSE ev.B),
+                     MinDiag(ev.G), ev.D)
   /\ win' = IF ev.kind = "model"
-              THEN LET W == WindowImages(ev.D, ev.x)
-                       L == MinLen(ev.G, W)
-                   IN  {v \in W : QForm(ev.G, v) = L}
+              THEN MinTable(ev.G, WindowImages(ev.D, ev.x), MinDiag(ev.G), ev.D).vecs
               ELSE MachineOut(ev)
   /\ pc' = "done"
   /\ UNCHANGED ev
